@@ -206,6 +206,10 @@ class ArgparseRunner:
                 self._generator.get_templates(omit_serialization_support=self._args.omit_serialization_support),
                 lambda p: str(p.resolve()),
             )
+            # files that templates include verbatim (e.g. the css/js assets of the html templates)
+            loader = getattr(self._generator, "dsdl_loader", None)
+            if loader is not None:
+                self._stdout_lister(loader.get_template_resources(), lambda p: str(p.resolve()))
 
         if self._should_generate_support():
             self._stdout_lister(
